@@ -105,3 +105,40 @@ Theorem C05_pk_select : forall img U, 512 <= U -> forall S (cb : row -> S -> flo
   fl_ok (h_pk_select (image_pager img U) (openp (image_pager img U) U) (image_pages img U) S cb sc table k columns s).
 Proof. exact h_pk_select_ok. Qed.
 Print Assumptions C05_pk_select.
+
+(* ---------- end to end: nothing but the bytes of the file ---------- *)
+From SQ Require Import Model.E2E Proofs.E2EP.
+
+(* the high level API with the schema taken from the file itself (sqlite_master's SQL text through the
+   tokenizer model, the translated parser and the model of newSchema): EVERY byte string as a
+   database file, every page size, every table / index / column name, key and non-panicking
+   callback: rows and/or an ordinary error.  sql.Parse's own totality is C16_parse_total. *)
+Theorem C05_e2e_select : forall img U, 512 <= U -> forall S (cb : row -> S -> flow * S), (forall r s, fl_ok (cb r s)) ->
+  forall table columns s,
+  fl_ok (e_select (image_pager img U) (openp (image_pager img U) U) (image_pages img U) S cb table columns s).
+Proof. exact e_select_ok. Qed.
+Print Assumptions C05_e2e_select.
+
+Theorem C05_e2e_select_rowid : forall img U, 512 <= U -> forall S (cb : row -> S -> flow * S), (forall r s, fl_ok (cb r s)) ->
+  forall table rowid columns s,
+  fl_ok (e_select_rowid (image_pager img U) (openp (image_pager img U) U) (image_pages img U) S cb table rowid columns s).
+Proof. exact e_select_rowid_ok. Qed.
+Print Assumptions C05_e2e_select_rowid.
+
+Theorem C05_e2e_indexed_select : forall img U, 512 <= U -> forall S (cb : row -> S -> flow * S), (forall r s, fl_ok (cb r s)) ->
+  forall table iname columns s,
+  fl_ok (e_indexed_select (image_pager img U) (openp (image_pager img U) U) (image_pages img U) S cb table iname columns s).
+Proof. exact e_indexed_select_ok. Qed.
+Print Assumptions C05_e2e_indexed_select.
+
+Theorem C05_e2e_indexed_select_eq : forall img U, 512 <= U -> forall S (cb : row -> S -> flow * S), (forall r s, fl_ok (cb r s)) ->
+  forall table iname k columns s,
+  fl_ok (e_indexed_select_eq (image_pager img U) (openp (image_pager img U) U) (image_pages img U) S cb table iname k columns s).
+Proof. exact e_indexed_select_eq_ok. Qed.
+Print Assumptions C05_e2e_indexed_select_eq.
+
+Theorem C05_e2e_pk_select : forall img U, 512 <= U -> forall S (cb : row -> S -> flow * S), (forall r s, fl_ok (cb r s)) ->
+  forall table k columns s,
+  fl_ok (e_pk_select (image_pager img U) (openp (image_pager img U) U) (image_pages img U) S cb table k columns s).
+Proof. exact e_pk_select_ok. Qed.
+Print Assumptions C05_e2e_pk_select.
